@@ -104,7 +104,7 @@ def las_layouts(vers20: bool, ncurves: int, nframes: int, params: bool, wrap: bo
     c1, c2, cind = mark.pick_from(c1, (0, 4)), mark.pick_from(c2, (1, 7)), mark.pick(cind, 0, 2)
     with mark.untraced():
         content = _content(vers20, ncurves, nframes, params, c0, c1, c2)
-        lay = dict(wrap=wrap, lead=lead, sep=sep, comments=comments, blanks=blanks, per_line=per_line, colon_pad=colon_pad, comment_indent=['', '  ', '\t'][cind], vers_fmt='%.2f' if c1 == 4 else '%.1f', blank_fill=['', '   ', ' \t '][(lead + sep) % 3])
+        lay = dict(wrap=wrap, lead=lead, sep=sep, comments=comments, blanks=blanks, per_line=per_line, colon_pad=colon_pad, comment_indent=['', '  ', '\t'][cind], vers_fmt='%.2f' if c1 == 4 else '%.1f', blank_fill=['', '   ', ' \t '][(lead + sep) % 3], head_lead=lead if per_line % 2 == 1 else 0)
         return _check(content, lay)
 
 
@@ -124,7 +124,7 @@ def las_layouts_q(vers20: bool, ncurves: int, nframes: int, wrap: bool, lead: in
     per_line, c0 = mark.pick(per_line, 1, 2), mark.pick(c0, 0, 7)
     with mark.untraced():
         content = _content(vers20, ncurves, nframes, ncurves % 2 == 0, c0, 4, 7)
-        lay = dict(wrap=wrap, lead=lead, sep=sep, comments=comments, blanks=blanks, per_line=per_line, colon_pad=1 + lead // 2, comment_indent=['', '  ', '\t'][cind], vers_fmt='%.2f' if c0 >= 4 else '%.1f', blank_fill=['', '   ', ' \t '][(lead + sep) % 3])
+        lay = dict(wrap=wrap, lead=lead, sep=sep, comments=comments, blanks=blanks, per_line=per_line, colon_pad=1 + lead // 2, comment_indent=['', '  ', '\t'][cind], vers_fmt='%.2f' if c0 >= 4 else '%.1f', blank_fill=['', '   ', ' \t '][(lead + sep) % 3], head_lead=lead if per_line % 2 == 1 else 0)
         return _check(content, lay)
 
 
